@@ -328,6 +328,9 @@ func (st *runState) client(sim *simrt.Sim, sys *System, ci int, c Client) {
 		if w.Encoding != "" {
 			req.Header.Set("Content-Encoding", w.Encoding)
 		}
+		if names := NodeNames(st.s.Cfg); len(names) > 1 && op.DSN > 0 {
+			req.Header.Set("X-CH-DSN", names[(op.DSN-1)%len(names)])
+		}
 		if op.TTLHdr != "" {
 			req.Header.Set("X-Ttl-Days", op.TTLHdr)
 		}
@@ -450,7 +453,7 @@ func (st *runState) finishWith(ri *simcheck.RunInfo, sim *simrt.Sim, sys *System
 	okVals := map[float64][]loc{}    // metric value -> successful occurrences
 	okAttr := map[string][]loc{}     // span tag -> successful tag-index rows (key "name")
 	sentNotOk := map[string]int{}    // tag -> occurrences in sample blocks that did not succeed
-	seriesAt := map[string][]int64{} // "fp|type|date" -> EndEv of successful series blocks
+	seriesAtN := map[string]map[string][]int64{} // node -> "fp|type|date" -> EndEv of successful series blocks on that node
 	fpLabels := map[uint64]map[string]bool{}
 	labelFp := map[string]map[uint64]bool{}
 	for _, blk := range blocks {
@@ -614,7 +617,10 @@ func (st *runState) finishWith(ri *simcheck.RunInfo, sim *simrt.Sim, sys *System
 				labelFp[key][f] = true
 				if blk.Finished && blk.Err == nil {
 					k := fmt.Sprintf("%d|%d|%d", f, tp.Vals[i].(uint64), dt.Vals[i].(int64))
-					seriesAt[k] = append(seriesAt[k], blk.EndEv)
+					if seriesAtN[blk.Node] == nil {
+						seriesAtN[blk.Node] = map[string][]int64{}
+					}
+					seriesAtN[blk.Node][k] = append(seriesAtN[blk.Node][k], blk.EndEv)
 				}
 			}
 		}
@@ -694,7 +700,7 @@ func (st *runState) finishWith(ri *simcheck.RunInfo, sim *simrt.Sim, sys *System
 				// the span's tag-index rows must be durable too
 				ab := 0
 				for _, l := range okAttr[x.Tag] {
-					if l.b.EndEv < r.StatusEv {
+					if l.b.EndEv < r.StatusEv && l.b.Node == ls[0].b.Node {
 						ab++
 					}
 				}
@@ -784,6 +790,7 @@ func (st *runState) finishWith(ri *simcheck.RunInfo, sim *simrt.Sim, sys *System
 						hi--
 					}
 					found := false
+					seriesAt := seriesAtN[l.b.Node] // the nodes are independent servers: the index row has to be where the sample is
 					for d := lo; d <= hi && !found; d++ {
 						for _, tt := range []uint64{tp, 0} {
 							for _, ev := range seriesAt[fmt.Sprintf("%d|%d|%d", f, tt, d)] {
@@ -803,9 +810,22 @@ func (st *runState) finishWith(ri *simcheck.RunInfo, sim *simrt.Sim, sys *System
 						sort.Strings(have)
 						xx := *x
 						xx.TsNs = ts
-						add("C04", "acked-sample-not-indexed", st.classifyIndexMiss(f, tp, lo, hi, have, seriesAt, r, &xx),
-							fmt.Sprintf("req%d (%s) acknowledged %d at ev %d (started ev %d); sample ts=%s type=%d fingerprint=%d has no successfully inserted series row with day in [%d,%d] before the ack; series rows of that fingerprint (fp|type|day): %v; tz offset %d min; blocks: %s",
-								r.ID, r.Op.Proto, r.Status, r.StatusEv, r.StartEv, tm.UTC().Format(time.RFC3339Nano), tp, f, lo, hi, have, s.Cfg.TZOffsetMin, st.blockSummary(30)))
+						sig := st.classifyIndexMiss(l.b.Node, f, tp, lo, hi, have, r, &xx)
+						for on, m := range seriesAtN {
+							for d := lo; d <= hi && on != l.b.Node; d++ {
+								for _, tt := range []uint64{tp, 0} {
+									for _, ev := range m[fmt.Sprintf("%d|%d|%d", f, tt, d)] {
+										if ev < r.StatusEv {
+											sig = "the sample is on one configured node and its series row only on another"
+											have = append(have, fmt.Sprintf("(on node %s: %d|%d|%d)", on, f, tt, d))
+										}
+									}
+								}
+							}
+						}
+						add("C04", "acked-sample-not-indexed", sig,
+							fmt.Sprintf("req%d (%s, X-CH-DSN index %d, sample on node %q) acknowledged %d at ev %d (started ev %d); sample ts=%s type=%d fingerprint=%d has no successfully inserted series row with day in [%d,%d] before the ack; series rows of that fingerprint (fp|type|day): %v; tz offset %d min; blocks: %s",
+								r.ID, r.Op.Proto, r.Op.DSN, l.b.Node, r.Status, r.StatusEv, r.StartEv, tm.UTC().Format(time.RFC3339Nano), tp, f, lo, hi, have, s.Cfg.TZOffsetMin, st.blockSummary(30)))
 					}
 				}
 			}
@@ -997,12 +1017,12 @@ func (st *runState) noOtherTs(ts int64) bool {
 }
 
 // classifyIndexMiss turns a missing index row into a signature that names the history class.
-func (st *runState) classifyIndexMiss(f, tp uint64, lo, hi int64, have []string, seriesAt map[string][]int64, r *ReqRec, x *ExpRow) string {
+func (st *runState) classifyIndexMiss(node string, f, tp uint64, lo, hi int64, have []string, r *ReqRec, x *ExpRow) string {
 	// (1) a series row for this key was submitted by some push, but its INSERT had not succeeded when
 	// this push was acknowledged (failed, still in flight, or completed later)
 	pending := false
 	for _, blk := range st.db.Blocks {
-		if !strings.HasPrefix(blk.Table, "time_series") || !blk.Rect {
+		if !strings.HasPrefix(blk.Table, "time_series") || !blk.Rect || blk.Node != node {
 			continue
 		}
 		if blk.Finished && blk.Err == nil && blk.EndEv < r.StatusEv {
@@ -1030,7 +1050,7 @@ func (st *runState) classifyIndexMiss(f, tp uint64, lo, hi int64, have []string,
 		// (a stream claims the cross product of the days and types it contains)
 		daysOf, typesOf := map[int]map[int64]bool{}, map[int]map[uint64]bool{}
 		for _, blk := range st.db.Blocks {
-			if !strings.HasPrefix(blk.Table, "samples_v3") || !blk.Rect {
+			if !strings.HasPrefix(blk.Table, "samples_v3") || !blk.Rect || blk.Node != node {
 				continue
 			}
 			fc, tc, sc, vc, tsc := blk.Col("fingerprint"), blk.Col("type"), blk.Col("string"), blk.Col("value"), blk.Col("timestamp_ns")
